@@ -4,6 +4,7 @@ CONSTANTS
   NN = 3
   PP = 1
   Samples = 200
+  Slice = 0
   Chains = 6
 INVARIANT Theorems
 CONSTRAINT Emit
